@@ -48,7 +48,7 @@ def _not_done(facts: set) -> bool:
 
 
 def guard(ctx: Ctx) -> GuardAnalysis:
-    return GuardAnalysis(effects(ctx), _not_done,
+    return GuardAnalysis(effects(ctx), lambda f, facts: _not_done(facts),
                          exempt_field=lambda p: bool(p) and p[-1] in TIMER_FIELDS,
                          describe="`not self.is_done()`")
 
